@@ -21,12 +21,14 @@ TRUSTED_BASE = L.TRUSTED_COMMON
 PROFILE = L.profile(without=['clear', 'rawupdate', 'rawdelete', 'unpickle'],
                     weights={'setattr': 18, 'set': 14, 'syncupdate': 8, 'sync': 5, 'expire': 4, 'select': 8, 'pickle': 4, 'destroy': 3,
                              'read': 8, 'create': 8},
-                    kinds=[1, 1, 1, 0], p_fault=0.03, motifs=[L.motif_lazy_refetch, L.motif_lazy_expire], p_motif=0.06)
+                    kinds=[1, 1, 1, 0], p_fault=0.03, p_iterwrite=0.15, motifs=[L.motif_lazy_refetch, L.motif_lazy_expire], p_motif=0.06)
 FLUSHES = ('syncupdate', 'sync', 'pickle')
 
 
 def corpus():
     return [
+        # fixed (6e79cab): a lazy set() with an unknown keyword queued the other values before raising TypeError
+        {'cfg': {'cache': True, 'freq': 100, 'frac': 2}, 'ops': [['create', 1, [[1, 100]]], ['set', 0, [[0, 5], [3, 1]]], ['read', 0, 0], ['syncupdate', 0]]},
         # fixed: expire() used to leave dirty set; an empty set() used to set it
         {'cfg': {'cache': True, 'freq': 100, 'frac': 2}, 'ops': [['create', 1, [[1, 100]]], ['setattr', 0, 0, 3], ['expire', 0], ['read', 0, 0]]},
         {'cfg': {'cache': True, 'freq': 100, 'frac': 2}, 'ops': [['create', 1, [[1, 100]]], ['set', 0, []], ['syncupdate', 0]]},
